@@ -319,6 +319,32 @@ func c09Case(c *core.Ctx, idx int) {
 				rec.Count("reused_target_decodes", 1)
 			}
 		}
+		// the same value written in the repeated-field form (by an instance with ProtoCompatibleArrays)
+		// and read by this default-mode instance into a recycled target: slices cut to [:0], the rest
+		// zeroed. Absent stays absent there too.
+		if !cfg.ProtoArrays && prev.IsValid() && j%2 == 1 {
+			wcfg := cfg
+			wcfg.ProtoArrays = true
+			if wcfg.Validate(typ, "") == "" {
+				if rdata, err, pn := marshal(instNew(wcfg), nil, ptrTo(v)); err == nil && pn == "" {
+					got := reflect.New(typ)
+					got.Elem().Set(model.DeepCopy(prev))
+					recycle(got.Elem())
+					err, pn := unmarshal(tc.p, rdata, got.Interface())
+					rec.Eval(1)
+					exp := wcfg.Normalise(v, "", true)
+					if err != nil || pn != "" {
+						rec.Violation("unmarshal-error", fmt.Sprintf("[%s] the repeated-field form into a recycled target: %v %s", tc.name, err, pn), caseExtra(tc, v, rdata))
+						return
+					}
+					if d := presenceDiff(exp, got.Elem(), "$"); d != "" {
+						rec.Violation("presence", fmt.Sprintf("presence changed when a default-mode instance read the repeated-field form into a recycled target (slices cut to [:0]) [%s]: %s\n  type %s\n  value %s\n  got   %s\n  bytes %s", tc.name, d, typeString(typ), model.Show(v), model.Show(got.Elem()), hexHead(rdata)), caseExtra(tc, v, rdata))
+						return
+					}
+					rec.Count("repeated_form_into_recycled_targets", 1)
+				}
+			}
+		}
 		prev = out.Elem()
 		// plain (non-pointer) scalar, string, slice and time fields have no presence:
 		// field 2 (Q, the plain twin of P) must be absent from the encoding exactly when it is zero
